@@ -457,10 +457,11 @@ def _run_history(case, ctx):
     r = gen.rng(case["seed"], "h")
     hostile = case.get("hostile")
     flavour = r.random()
-    ads, T = r.choice(gen.FIXED_CONTEXTS)
+    # shipped fluids, two whose stored molar mass differs from the backend's, and a user-defined vapour known only by its properties
+    ads, T = r.choice(list(gen.FIXED_CONTEXTS) + list(gen.STORED_VS_BACKEND_CONTEXTS) * 2 + [(gen.user_vapour()[0], 300.0)] * 2)
     mp = gen.material_props(r)
     units = gen.random_units(r)
-    fl = RU.fluid(gen.backend_of(ads))
+    fl = gen.reference_fluid(ads)
     if hostile and flavour < 0.25:
         # material lacking density / molar mass: conversions needing them must be refused cleanly
         mp = {"density": mp["density"]} if r.random() < 0.5 else {}
